@@ -314,6 +314,49 @@ func TestC19(t *testing.T) {
 		rec("concurrent callers: calls that received another call's result = %d", atomic.LoadInt64(&wrong))
 		rep.Eval(4800)
 	}
+	// out-parameters living in the caller's frame, called at every stack depth of fresh goroutines (so that the stack
+	// is moved at different points of the call): the callback's writes must arrive in the caller's variables
+	{
+		b := mocker.Create()
+		b.Func(FOut).Apply(func(p *int, q *[4]int64, a int) int {
+			burn(20) // the callback itself needs stack
+			*p = a + 1
+			q[3] = int64(a + 2)
+			return a + 3
+		})
+		sweep := vmon.EnvInt("VERIF_C19_SWEEP", 260)
+		lostOnGrowth, otherWrong := 0, 0
+		var lostAt []int
+		for d := 0; d < sweep; d++ {
+			done := make(chan [2][3]int)
+			go func() {
+				var out [2][3]int
+				descend19(d, func() { out[0] = callFOut(d); out[1] = callFOut(d) })
+				done <- out
+			}()
+			o := <-done
+			want := [3]int{d + 1, d + 2, d + 3}
+			switch {
+			case o[0] == want && o[1] == want:
+			case o[0] == [3]int{0, 0, d + 3} && o[1] == want:
+				// the callback ran with the right scalar argument and returned, but both writes through the pointers
+				// went elsewhere; the same call repeated on the (now grown) stack is right
+				lostOnGrowth++
+				if len(lostAt) < 12 {
+					lostAt = append(lostAt, d)
+				}
+			default:
+				otherWrong++
+				rec("FOut at depth %d -> %v then %v, want %v", d, o[0], o[1], want)
+			}
+		}
+		b.Reset()
+		rec("out-parameters in the caller's frame: %d depths", sweep)
+		rep.Eval(int64(sweep))
+		rep.Stat("outparam_depths:"+mode, int64(sweep))
+		rep.Stat("outparam_writes_lost_on_stack_growth:"+mode, int64(lostOnGrowth))
+		rep.Note("outparam_lost_at:"+mode, fmt.Sprint(lostAt))
+	}
 	rep.Class("mode/" + mode)
 	rep.Stat("transcript_lines:"+mode, int64(len(lines)))
 	out := os.Getenv("VERIF_C19_TRANSCRIPT")
@@ -323,4 +366,38 @@ func TestC19(t *testing.T) {
 	if len(lines) > 3 {
 		rep.Sample(map[string]interface{}{"mode": mode, "first_lines": lines[:3]})
 	}
+}
+
+// FOut lets neither pointer escape: callers keep the pointees in their own frames.
+//
+//go:noinline
+func FOut(p *int, q *[4]int64, a int) int { return -8 - *p*0 - int(q[0])*0 }
+
+//go:noinline
+func callFOut(a int) [3]int {
+	var x int
+	var arr [4]int64
+	r := FOut(&x, &arr, a)
+	return [3]int{x, int(arr[3]), r}
+}
+
+//go:noinline
+func descend19(d int, f func()) int {
+	var pad [48]byte
+	pad[d%48] = byte(d)
+	if d == 0 {
+		f()
+		return int(pad[0])
+	}
+	return descend19(d-1, f) + int(pad[d%48])
+}
+
+//go:noinline
+func burn(n int) int {
+	var pad [200]byte
+	pad[n] = byte(n)
+	if n == 0 {
+		return int(pad[0])
+	}
+	return burn(n-1) + int(pad[n])
 }
